@@ -18,10 +18,12 @@ C14_X5_only|Iora.C14.X5_decode_sound|decodeEntities output is exactly: literal b
 C14_X5_unknown|Iora.C14.X5_unknown_entity_rejected|a reference that is neither predefined nor numeric is an error at its offset, never expanded
 C14_X5_utf8|Iora.C14.X5_encodeUtf8_scalar|encodeUtf8 = String.utf8EncodeChar on every Unicode scalar value
 C14_X5_utf8_reject|Iora.C14.X5_encodeUtf8_rejects|encodeUtf8 fails exactly on surrogates and values above 0x10FFFF
+C14_X5_numeric|Iora.C14.X5_numeric_value|a numeric reference denotes the hex/decimal value of its digits reduced modulo 2^32 (identity below 2^32; the wrap only shows on ill-formed input)
 C14_X5_total|Iora.C14.X5_decode_terminates|decodeEntities never exhausts its loop budget
 C14_X6_sax|Iora.C14.X6_sax_is_token_list|SAX callback sequence = pull token list, result = accepted
 C14_X6_dom|Iora.C14.X6_dom_flatten|the DOM, flattened in document order, is the pull token list with names copied and text/attribute values decoded
 C14_X7_skeleton|Iora.C14.X7_skeleton_faithful|tokens(render d) = events d for every element/attribute skeleton and every formatting choice (quotes, white space in tags, <a/> vs <a></a>)
+C14_X7_tree|Iora.C14.X7_tree_faithful|every forest of element trees within the limits, however formatted, is accepted and reported as its pre-order events
 C14_X7_text|Iora.C14.X7_leading_space_kept|F29 repaired: a text node that starts with white space is reported with it
 C14_gen|Iora.C14.gen_conformance|constants regenerated from the header (token kinds, defaults, entity chain, character classes, UTF-8 bounds, messages) are what the model uses
 """
@@ -974,7 +976,7 @@ def run(ctx: Ctx):
     feats = {}
     stats = {"accepted": 0, "rejected": 0, "expat_compared": 0, "expat_rejected": 0, "dom_null_entity": 0, "unspecified_numeric_refs": 0,
              "limit_reject": 0, "limit_accept": 0}
-    if hb and os.path.exists(ctx.model_bin()):
+    if hb:
         cases = load_corpus()
         cases += gen_tree_cases(rng.fork("tree"), 4000 * scale, feats)
         cases += gen_limit_cases(rng.fork("limit"), 400 * scale)
